@@ -12,6 +12,8 @@
 //	m <msg> ... rung <n>  the same under a controlled schedule (sched.go): the writer goroutine parks inside
 //	                      every Write, messages start and body reads return one gate at a time, chosen by
 //	                      a splitmix stream seeded with n
+//	runpx <spec>          exchanges through a real martian.Proxy whose request/response modifier is the real
+//	                      marbl.Modifier (px.go): messages are logged under the IDs of the contexts the proxy creates
 //	m <msg> ... runstall <ms>.<k>  free-running, but the stream's io.Writer blocks for ms milliseconds of wall
 //	                      clock inside its k-th Write while the messages go on being logged and read (a slow
 //	                      disk / subscriber): every sender has to wait, no frame may be lost
@@ -72,7 +74,7 @@ func (P) Rule() string {
 		"to one real marbl.Stream (writer: a recorder that also retains the slices it is handed; via marbl.Modifier in 1/5, into the real marbl.Handler " +
 		"with a real websocket subscriber in 2/5 of the cases; or, `rung`, 2..6 messages under a controlled schedule: the writer goroutine is held inside every Write, " +
 		"message starts and body reads are released one gate at a time by a seeded scheduler that waits for all goroutines to block) and parsed back with marbl.Reader and an independent parser, " +
-		"the model replaying the observed order of writes; one case (thorough: 6) stalls the stream's writer for 400..1500 ms of wall clock inside one Write while bodies are being read; or a batch of `read` ops: streams of valid " +
+		"the model replaying the observed order of writes; 12 (thorough 150) cases send 1..4 keep-alive exchanges on each of 1..4 connections through a real martian.Proxy with marbl.Modifier installed and judge the stream per message ID and type (IDs = the proxy's contexts'); one case (thorough: 6) stalls the stream's writer for 400..1500 ms of wall clock inside one Write while bodies are being read; or a batch of `read` ops: streams of valid " +
 		"frames (1/30 with a header or data frame around/above 64 KiB) that are truncated, bit-flipped, re-typed, given boundary/huge length fields, spliced with random bytes, or purely random; " +
 		"distinct by hash of the op list; non-trivial when a log case has >= 2 messages and >= 2 data frames, or a read batch reaches " +
 		">= 2 different terminating outcomes or parses >= 1 frame before an error"
@@ -81,6 +83,9 @@ func (P) Rule() string {
 func (P) Nontrivial(ops []string, impl []string) bool {
 	if len(ops) == 0 {
 		return false
+	}
+	if strings.HasPrefix(ops[0], "runpx ") {
+		return strings.ContainsAny(ops[0], ",;") // at least two exchanges
 	}
 	if strings.HasPrefix(ops[0], "log ") || strings.HasPrefix(ops[0], "m ") {
 		var toks []string
@@ -1284,6 +1289,8 @@ func (e *ex) Do(op string) core.Result {
 			return core.Result{Impl: "bad-op"}
 		}
 		return doLog(q, "rung", seed, op)
+	case len(t) == 2 && t[0] == "runpx": // through a real proxy + marbl.Modifier: the proxy's own context IDs (px.go)
+		return doPx(t[1], op)
 	case len(t) == 2 && t[0] == "runstall": // wall-clock stall of the stream's writer: <ms>.<k>
 		p := strings.Split(t[1], ".")
 		q := e.queue
